@@ -670,3 +670,31 @@ def xml_tree(text):
         return [q.namespace or "", q.localname, [go(c) for c in el if isinstance(c.tag, str)]]
 
     return go(etree.fromstring(text.encode("utf-8") if isinstance(text, str) else text))
+
+
+TAG_CODE = {"Element": 0, "BindingMessage": 1, "BindingOperation": 2}
+
+
+def t_qn(q):
+    ns, local = split_q(q)
+    return f"({cstr(ns)}, {cstr(local)})"
+
+
+def t_fclass(c):
+    """dump_class(...) of a raw mapper class -> fclass term (Model/WsdlCorr.v)"""
+    def onat(x):
+        return "None" if x is None else f"(Some {int(x)}%nat)"
+
+    def attr(a):
+        if len(a["types"]) != 1:
+            raise ValueError("attr with %d types" % len(a["types"]))
+        t = a["types"][0]
+        d = a["default"]
+        if d is not None and not isinstance(d, str):
+            raise ValueError("non-string default")
+        return (f"(mk_fattr {cstr(a['name'])} {ostr(a['namespace'])} {ostr(d)} {t_qn(t['qname'])} {cbool(t['native'])} "
+                f"{cbool(t['forward'])} {copt(t['reference'], t_qn)} {onat(a['restrictions']['min_occurs'])} "
+                f"{onat(a['restrictions']['max_occurs'])})")
+
+    return (f"(FClass {t_qn(c['qname'])} {ostr(c['meta_name'])} {TAG_CODE.get(c['tag'], 8)}%nat {ostr(c['namespace'])} "
+            f"{clist(c['attrs'], attr, 'fattr')} {clist(c['inner'], t_fclass, 'fclass')})")
